@@ -48,6 +48,11 @@ def facts(t):
                 return {(left, True)}, {(left, False)}, {left}
             if right == ("const", "None") and op in ("Is", "Eq"):
                 return {(left, False)}, {(left, True)}, {left}
+            # negative comparison operators are the negation of the positive ones: one atom for both spellings
+            NEG = {"NotIn": "In", "NotEq": "Eq", "IsNot": "Is"}
+            if op in NEG and not (right == ("const", "None")):
+                kt, kf, at = facts(("op", "cmp:" + NEG[op], ops))
+                return kf, kt, at
             # len(x) <op> const
             if left[0] == "call" and left[1] == ("builtin", "len") and len(left[2]) == 1 and right[0] == "const":
                 x = left[2][0]
